@@ -45,8 +45,13 @@ C08OK(rec) ==
                               /\ \A i \in 1..Len(cs) : <<cs[i][3], cs[i][4]>> = Entry(pre, cs[i][2])
             [] rec.op = "size" -> Dom(post) = Dom(pre) /\ SameBut(pre, post, {}) /\ rec.ret = Cardinality(Dom(pre))
             [] OTHER -> FALSE
+C15OK(rec) == rec.op = "clear" => (C08OK(rec) /\ ToSt(rec.post) = FreshM /\ rec.post.nlive = 0)
+\* C16: a failing node allocation makes insert return -1, the map holds exactly what it held, nothing leaks
+C16OK(rec) == (rec.op = "insert" /\ rec.fail) => C08OK(rec)
 VARIABLE i
 Judge(rec) ==
+    /\ (Level # 2 \/ C15OK(rec) \/ PrintT(<<"L2FAIL", "C15", rec.id>>))
+    /\ (Level # 2 \/ C16OK(rec) \/ PrintT(<<"L2FAIL", "C16", rec.id>>))
     /\ (Level # 2 \/ C08OK(rec) \/ PrintT(<<"L2FAIL", "C08", rec.id>>))
     /\ (Level # 1 \/ StepOK(rec) \/ PrintT(<<"L1DRIFT", "map", rec.id>>))
 TInit == i = 1
